@@ -580,6 +580,16 @@ def step (s : DState) (line : String) : DState × String :=
   match words line with
   | "rw" :: rest => (s, rwStep rest)
   | "px" :: rest => pxStep s rest
+  -- C03: what the theorems promise for every fault history (Helios.LB.recovers, the C13
+  -- conservation theorems, lockorder_sound) and the timeouts fact for every single request
+  | ["ft", "new", _, _, _, _, _] => (s, "ok")
+  | ["ft", "close"] => (s, "ok")
+  | ["ft", "req", _] => (s, "ended=1")
+  | ["ft", "conc", n, faults] =>
+    (match n.toNat? with
+     | some k => (s, s!"ended={k * (faults.splitOn ",").length}")
+     | none => (s, "bad-op"))
+  | ["ft", "probe"] => (s, "probe=200 gauge=0 acct=1")
   | "pool" :: rest => poolStep s rest
   | ["stop", _nb, _pm, _du, _st, pool] =>
     -- what the protocol theorems (Helios.Shut.stop_safe / stop_no_deadlock) promise for every schedule
